@@ -6,11 +6,11 @@ import (
 	"fmt"
 	"net/http"
 	"regexp"
+	"runtime/debug"
 	"sort"
 	"strconv"
 	"strings"
 
-	"goa.design/goa/v3/codegen"
 	"goa.design/goa/v3/codegen/generator"
 	"goa.design/goa/v3/eval"
 	"goa.design/goa/v3/expr"
@@ -27,17 +27,17 @@ type Param struct {
 
 // Op is one operation as seen on either side (server mount table or document).
 type Op struct {
-	Method   string     `json:"method"`
-	Path     string     `json:"path"` // wildcards normalised to {name}
-	RawPath  string     `json:"raw_path,omitempty"`
-	Params   []Param    `json:"params"`
-	HasBody  bool       `json:"has_body"`
-	Statuses []int      `json:"statuses"`
-	Security [][]string `json:"security"` // per requirement: sorted scheme keys, scopes appended as "key#scope"
-	Endpoint string     `json:"endpoint,omitempty"`
-	File     bool       `json:"file,omitempty"`
-	Basic    bool       `json:"basic,omitempty"` // server side: the decoder reads basic-auth credentials
-	BasicRequired bool  `json:"basic_required,omitempty"`
+	Method        string     `json:"method"`
+	Path          string     `json:"path"` // wildcards normalised to {name}
+	RawPath       string     `json:"raw_path,omitempty"`
+	Params        []Param    `json:"params"`
+	HasBody       bool       `json:"has_body"`
+	Statuses      []int      `json:"statuses"`
+	Security      [][]string `json:"security"` // per requirement: sorted scheme keys, scopes appended as "key#scope"
+	Endpoint      string     `json:"endpoint,omitempty"`
+	File          bool       `json:"file,omitempty"`
+	Basic         bool       `json:"basic,omitempty"` // server side: the decoder reads basic-auth credentials
+	BasicRequired bool       `json:"basic_required,omitempty"`
 }
 
 func (o Op) Key() string { return o.Method + " " + o.Path }
@@ -133,20 +133,22 @@ var handleRe = regexp.MustCompile(`mux\.Handle\("([A-Za-z]+)", "([^"]*)"`)
 
 // generate runs goa's generators in the order `goa gen` does (service, transport,
 // openapi), renders the server files and the four OpenAPI files in memory.
-func generate() (g *Generated, err error) {
+func generate() (g *Generated, stage string, err error) {
 	defer func() {
 		if r := recover(); r != nil {
-			err = fmt.Errorf("panic in generators: %v", r)
+			err = fmt.Errorf("panic in generators: %v\n%s", r, debug.Stack())
 		}
 	}()
 	g = &Generated{Docs: map[string][]byte{}}
 	roots := []eval.Root{expr.Root}
+	stage = "service"
 	if _, err := generator.Service("tb/gen", roots); err != nil {
-		return nil, err
+		return nil, stage, err
 	}
+	stage = "transport"
 	tfiles, err := generator.Transport("tb/gen", roots)
 	if err != nil {
-		return nil, err
+		return nil, stage, err
 	}
 	for _, f := range tfiles {
 		p := strings.ReplaceAll(f.Path, "\\", "/")
@@ -159,22 +161,23 @@ func generate() (g *Generated, err error) {
 				continue
 			}
 			if err := s.Write(&buf); err != nil {
-				return nil, fmt.Errorf("render %s/%s: %w", p, s.Name, err)
+				return nil, stage, fmt.Errorf("render %s/%s: %w", p, s.Name, err)
 			}
 		}
 		for _, m := range handleRe.FindAllStringSubmatch(buf.String(), -1) {
 			g.Mounted = append(g.Mounted, Op{Method: m[1], Path: normPath(m[2]), RawPath: m[2]})
 		}
 	}
+	stage = "openapi"
 	ofiles, err := generator.OpenAPI("tb/gen", roots)
 	if err != nil {
-		return nil, err
+		return nil, stage, err
 	}
 	for _, f := range ofiles {
 		var buf bytes.Buffer
 		for _, s := range f.SectionTemplates {
 			if err := s.Write(&buf); err != nil {
-				return nil, fmt.Errorf("render %s: %w", f.Path, err)
+				return nil, stage, fmt.Errorf("render %s: %w", f.Path, err)
 			}
 		}
 		name := f.Path[strings.LastIndexAny(f.Path, "/\\")+1:]
@@ -188,10 +191,8 @@ func generate() (g *Generated, err error) {
 		}
 		g.ServerOps = append(g.ServerOps, serverOps(sd)...)
 	}
-	return g, nil
+	return g, stage, nil
 }
-
-var _ = codegen.Gendir
 
 // serverOps reads the operations the generated server of one service mounts, and
 // for each the parameters its request decoder reads, whether it decodes a body,
@@ -449,58 +450,4 @@ func parseYAML(b []byte) (map[string]any, error) {
 		return nil, fmt.Errorf("top level is not a mapping")
 	}
 	return m, nil
-}
-
-// treeDiff returns the path of the first difference between two canonical trees, "" if none.
-func treeDiff(a, b any, at string) string {
-	switch x := a.(type) {
-	case map[string]any:
-		y, ok := b.(map[string]any)
-		if !ok {
-			return at + ": object vs " + fmt.Sprintf("%T", b)
-		}
-		ks := map[string]bool{}
-		for k := range x {
-			ks[k] = true
-		}
-		for k := range y {
-			ks[k] = true
-		}
-		keys := make([]string, 0, len(ks))
-		for k := range ks {
-			keys = append(keys, k)
-		}
-		sort.Strings(keys)
-		for _, k := range keys {
-			xv, xo := x[k]
-			yv, yo := y[k]
-			if !xo || !yo {
-				return at + "/" + k + ": present on one side only"
-			}
-			if d := treeDiff(xv, yv, at+"/"+k); d != "" {
-				return d
-			}
-		}
-		return ""
-	case []any:
-		y, ok := b.([]any)
-		if !ok || len(x) != len(y) {
-			return at + ": list length/type differs"
-		}
-		for i := range x {
-			if d := treeDiff(x[i], y[i], fmt.Sprintf("%s[%d]", at, i)); d != "" {
-				return d
-			}
-		}
-		return ""
-	default:
-		if a != b {
-			// yaml time stamps and the like: compare printed forms
-			if fmt.Sprint(a) == fmt.Sprint(b) {
-				return ""
-			}
-			return fmt.Sprintf("%s: %v vs %v", at, a, b)
-		}
-		return ""
-	}
 }
